@@ -43,6 +43,15 @@ def audit(Q, option_of, rep, activity, tol=1e-9, exact=False):
         R = ind.data_records
         ptr = defaultdict(int)
         lost = set()
+        # mechanism of every interruption record of this customer, matched with the observing node's log in order (several interruptions of
+        # one customer at one node may fall on one instant, even in different visits)
+        mech_of, used = {}, defaultdict(int)
+        for x in R:
+            if x.record_type == "interrupted service":
+                key = (ind.id_number, x.node, x.exit_date)
+                seq = mechs.get(key, [])
+                mech_of[id(x)] = seq[used[key]] if used[key] < len(seq) else None
+                used[key] += 1
         i = 0
         while i < len(R):
             r = R[i]
@@ -64,13 +73,7 @@ def audit(Q, option_of, rep, activity, tol=1e-9, exact=False):
                 # node with pre-emptive priorities *and* a pre-emptive schedule: (priority option, schedule option).  A visit whose interruptions
                 # all came from one mechanism follows that mechanism's option; visits interrupted by both are not audited
                 cuts = [x for x in ep if x.record_type == "interrupted service"]
-                seen_at = defaultdict(int)
-                mech = set()
-                for x in cuts:
-                    key = (ind.id_number, nid, x.exit_date)
-                    seq = mechs.get(key, [])
-                    mech.add(seq[seen_at[key]] if seen_at[key] < len(seq) else None)
-                    seen_at[key] += 1
+                mech = set(mech_of.get(id(x)) for x in cuts)
                 if opt[0] == opt[1] or not cuts:
                     opt = opt[0]
                 elif mech == {True}:
